@@ -42,3 +42,4 @@ import SluVerif.Proofs.InitCursor
 #print axioms Slu.initLoop_frame
 #print axioms Slu.parallelInit_queue_cursors
 #print axioms Slu.parallelInit_sizes
+#print axioms Slu.initLoop_fb
